@@ -309,6 +309,47 @@ def m_index_range(ex, callee, args):
 
 
 # ----------------------------------------------------------------------
+# trim_matches / trim_start_matches / trim_end_matches with a closure or a char
+
+@model(r'^core::str::<impl str>::(trim_matches|trim_start_matches|trim_end_matches)::<')
+def m_trim_matches(ex, callee, args):
+    s = as_str(args[0])
+    pat = args[1]
+    which = callee.split('<impl str>::')[1].split('::')[0]
+    bs, ln, cap = S.parts(s)
+    n = ln if isinstance(ln, int) else ex.concretize(BV(ln, 'usize'), candidates=list(range(cap + 1)), what='string length')
+    chars, pos = [], 0
+    while pos < n:
+        r = decode_at(ex, s, pos)
+        if r is None:
+            break
+        ch, w = r
+        chars.append((ch, pos, w))
+        pos += w
+
+    def hit(ch):
+        p = deref_all(pat) if not isinstance(pat, Closure) else pat
+        if isinstance(p, Closure) or (isinstance(p, Opaque) and p.kind == 'fnitem'):
+            return ex.branch(ex.call_closure(p, [ch]))
+        if isinstance(p, BV):
+            return ex.branch(ex.int_binop('Eq', BV(ch.v, 'char'), BV(p.v, 'char')))
+        raise Unsupported('%s with pattern %r' % (which, p))
+    i, j = 0, len(chars)
+    if which in ('trim_matches', 'trim_start_matches'):
+        while i < j and hit(chars[i][0]):
+            i += 1
+    if which in ('trim_matches', 'trim_end_matches'):
+        while j > i and hit(chars[j - 1][0]):
+            j -= 1
+    start = chars[i][1] if i < len(chars) else n
+    end = (chars[j - 1][1] + chars[j - 1][2]) if j > 0 else start
+    end = max(end, start)
+    if isinstance(s, (bytes, bytearray)):
+        return StrV(bytes(s[start:end]))
+    return StrV(SStr(list(bs[start:end]), end - start, 'trim'))
+
+
+# ----------------------------------------------------------------------
 # prefix / suffix / contains with char or str patterns on symbolic strings
 
 def _sym_strip(ex, s, p, pre):
